@@ -656,10 +656,31 @@ func (c *Ctx) convertSV(v *SV, to types.Type) *SV {
 			return &SV{S: "(to_real " + v.S + ")", T: to}
 		}
 		c.uses["fp"] = true
+		// int -> float in fp mode: an uninterpreted, monotone, sign- and small-constant-preserving
+		// function (mixing Int, Real and FloatingPoint in one query does not terminate in practice)
+		fn, srt := "i2f64", "11 53"
 		if intBits32(to) {
-			return &SV{S: "((_ to_fp 8 24) RNE (to_real " + v.S + "))", T: to}
+			fn, srt = "i2f32", "8 24"
 		}
-		return &SV{S: "((_ to_fp 11 53) RNE (to_real " + v.S + "))", T: to}
+		if !c.declared[fn] {
+			c.declareFun(fn, []string{"Int"}, "(_ FloatingPoint "+srt+")")
+			c.uses["quant"] = true
+			var parts []string
+			parts = append(parts, "(not (fp.isNaN ("+fn+" n)))", "(not (fp.isInfinite ("+fn+" n)))")
+			for _, k := range []int{-2, -1, 0, 1, 2, 127, 128} {
+				lit := fmt.Sprintf("((_ to_fp %s) RNE %d.0)", srt, k)
+				ks := fmt.Sprint(k)
+				if k < 0 {
+					lit = fmt.Sprintf("((_ to_fp %s) RNE (- %d.0))", srt, -k)
+					ks = fmt.Sprintf("(- %d)", -k)
+				}
+				parts = append(parts, fmt.Sprintf("(=> (>= n %s) (fp.geq (%s n) %s))", ks, fn, lit), fmt.Sprintf("(=> (<= n %s) (fp.leq (%s n) %s))", ks, fn, lit))
+			}
+			c.axioms = append(c.axioms, fmt.Sprintf("(forall ((n Int)) (! (and %s) :pattern ((%s n))))", strings.Join(parts, " "), fn))
+			c.axioms = append(c.axioms, fmt.Sprintf("(forall ((n Int) (m Int)) (! (=> (<= n m) (fp.leq (%[1]s n) (%[1]s m))) :pattern ((%[1]s n) (%[1]s m))))", fn))
+			c.trusted["integer-to-float conversion in fp mode is abstracted to a monotone, finite, sign-preserving uninterpreted function"] = true
+		}
+		return &SV{S: "(" + fn + " " + v.S + ")", T: to}
 	case isFloat(from) && isFloat(to):
 		if c.fmode == "real" || intBits32(from) == intBits32(to) {
 			return &SV{S: v.S, T: to}
